@@ -192,6 +192,9 @@ func main() {
 			e.add("replay", c)
 		}
 		e.flush()
+		if meta.Samples == nil {
+			meta.Samples = []interface{}{}
+		}
 		meta.Write(o.Out)
 		return
 	}
@@ -238,6 +241,9 @@ func main() {
 		}
 	}
 	e.flush()
+	if meta.Samples == nil {
+		meta.Samples = []interface{}{}
+	}
 	if err := meta.Write(o.Out); err != nil {
 		die("meta: %v", err)
 	}
